@@ -352,6 +352,11 @@ func runC12(c *Ctx) {
 			c.Check(ok && n >= 1, "R12.3", FuncName(del)+" :: Bootstrapped/Noop events carry encodeBookmark(pos − 1)", fpos(del), fmt.Sprintf("%d bookmark stores", n), fmt.Sprintf("%d bookmark stores, shape ok=%v %s", n, ok, why))
 		}
 	}
+
+	// ---------- R12.6 (shared with C13 R13.1)
+	c.Rule("R12.6", "E3", "a watch resumed from a bookmark by the gRPC client is the same watch: every field of the initial request (ID and label queries, aggregation, API version) is carried over, only bootstrap/tail/bookmark differ — interrupted + resumed equals uninterrupted", 6)
+	resumeRequestRule(c, "R12.6")
+
 }
 
 // mustCutEachLin: like mustCutEach with canonical linear atoms.
